@@ -194,7 +194,8 @@ def m2_loss_shape(ctx, res: Result, fi: FuncInfo, circ_u: FuncInfo, total: FuncI
     t = src(rets[0].value).replace(" ", "") if rets else ""
     res.add(t in ("self.n_modes+self.loss_modes", "self.loss_modes+self.n_modes", "self._n_modes+self._loss_modes", "self._loss_modes+self._n_modes", "self.n_modes+self._loss_modes", "self._loss_modes+self.n_modes", "self._n_modes+self.loss_modes", "self.loss_modes+self._n_modes"), "M2-component-matrix-size", total.qualname, total.site(), total.qualname,
             "total_modes = n_modes + loss_modes", f"total_modes is `{t}`", construct=t)
-    rets = [r for r in walk_no_nested(inlined(circ_u.node)) if isinstance(r, ast.Return)]
+    from ..inline import with_helpers as _wh
+    rets = [r for r in walk_no_nested(_wh(ctx, circ_u, exclude=("_build",)).node) if isinstance(r, ast.Return)]
     t = src(rets[0].value).replace(" ", "") if rets else ""
     res.add(t.endswith("[:self.n_modes,:self.n_modes]") and "U_full" in t, "M2-U-leading-block", circ_u.qualname, circ_u.site(), circ_u.qualname, "U is the leading n_modes x n_modes block of U_full",
             f"U is `{t}`, not the leading block of U_full", construct=t)
